@@ -474,6 +474,20 @@ func init() {
 		}
 		return e.mkReflType(r.T)
 	}
+	stubs["(reflect.StructField).IsExported"] = func(e *Exec, st *State, fn *ssa.Function, args []Val, where string) Val {
+		// IsExported reports PkgPath == ""
+		ag, ok := args[0].(*Agg)
+		if !ok {
+			panic(&UnsupportedErr{Msg: "StructField.IsExported on a non-struct value at " + where})
+		}
+		s := ag.Typ.Underlying().(*types.Struct)
+		for i := 0; i < s.NumFields(); i++ {
+			if s.Field(i).Name() == "PkgPath" {
+				return e.strEq(e.aggElem(ag, i), &StrV{})
+			}
+		}
+		panic(&UnsupportedErr{Msg: "StructField without PkgPath at " + where})
+	}
 	stubs["(reflect.StructTag).Get"] = func(e *Exec, st *State, fn *ssa.Function, args []Val, where string) Val {
 		a, ok := concArgs(e, args)
 		if !ok {
